@@ -320,6 +320,15 @@ def trace_of(path, t, limit=400):
     return out
 
 
+def trace_any(files, t, limit=400):
+    """trace_of over several trace files: the first file that holds trace t; else the first trace of the first file."""
+    for f in files:
+        tr = trace_of(f, t, limit)
+        if tr:
+            return tr
+    return trace_of(files[0], 1, limit) if files else []
+
+
 def evidence(ctx, level, coverage, assumptions=None):
     os.makedirs(os.path.join(VERIF, "evidence"), exist_ok=True)
     states = sum(x["distinct"] for x in ctx.l1) + sum(x["distinct"] for x in ctx.mon)
